@@ -436,6 +436,7 @@ pub fn resizings(e: &Entry, tree: &r8::Node) -> Vec<(String, Vec<u8>)> {
             }
         }
     }
+    out.extend(bmp_pairs(tree));
     // remainder with zero high-degree coefficients in front (same polynomial, other bytes)
     if let Some(rp) = r8::find(tree, "fri_proof.remainder.coefficients") {
         let mut t = tree.clone();
@@ -445,6 +446,36 @@ pub fn resizings(e: &Entry, tree: &r8::Node) -> Vec<(String, Vec<u8>)> {
             *bytes = nb;
         }
         out.push(("remainder doubled in length with zero high-degree coefficients".into(), r8::to_bytes(&t)));
+    }
+    out
+}
+
+/// Every batch Merkle proof of a tree (or the tree itself, if it is one): depth x announced
+/// node-vector count, both untrusted and read back to back (seed C05b: a count bounded by 2^depth
+/// and then pre-allocated).
+pub fn bmp_pairs(tree: &r8::Node) -> Vec<(String, Vec<u8>)> {
+    let mut out = vec![];
+    for (path, name) in r8::paths(tree) {
+        if !name.ends_with("batch_merkle_proof") {
+            continue;
+        }
+        for depth in [20u64, 36, 40, 62, 63] {
+            for count in [1u64 << 20, 1 << 35, 1 << 38, 1 << 56, 1 << 60, (1 << 62) + 1] {
+                let mut t = tree.clone();
+                let node = r8::get_mut(&mut t, &path);
+                if let Some(dp) = r8::find(node, "batch_merkle_proof.depth") {
+                    if let r8::Node::Int { value, .. } = r8::get_mut(node, &dp) {
+                        *value = depth;
+                    }
+                }
+                if let Some(cp) = r8::find(node, "batch_merkle_proof.node_vectors") {
+                    if let r8::Node::Count { lie, .. } = r8::get_mut(node, &cp) {
+                        *lie = Some(count);
+                    }
+                }
+                out.push((format!("{name}: depth = {depth} and node-vector count prefix = {count}"), r8::to_bytes(&t)));
+            }
+        }
     }
     out
 }
